@@ -71,7 +71,7 @@ def extra(ctx, lines):
 CFG = dict(
     imports=["From Verif.C23 Require Import Model Spec.", "Open Scope N_scope."],
     checker="check_case",
-    n=dict(quick=110, thorough=8000),
+    n=dict(quick=110, thorough=1320),
     shard=25,
     classify=classify,
     extra=extra,
